@@ -347,7 +347,7 @@ func (m *wdMon) replaceOp(p *procM, perturb string) *relOp {
 		return nil
 	}
 	last := p.Cands[len(p.Cands)-1]
-	tx, fee, vals := m.payoutFor(p.Ids, map[string]string{"wrong-script": "wrong-script", "value+1": "value+1"}[perturb])
+	tx, fee, vals := m.payoutFor(p.Ids, map[string]string{"wrong-script": "wrong-script", "value+1": "value+1", "two-extra-outputs": "two-extra-outputs", "change-to-foreign-key": "change-to-foreign-key", "change-to-old-key": "change-to-old-key", "swap-outputs": "swap-outputs", "fee-above-limit": "fee-above-limit"}[perturb])
 	raw := world.NoWitness(tx)
 	// strictly higher fee within the users' limits, unless perturbed
 	switch perturb {
@@ -646,7 +646,7 @@ func c05Gen(m *wdMon, blk, nBlocks, idx int, addrPool []addrCase) {
 		p := open[r.Intn(len(open))]
 		perturb := ""
 		if r.Intn(2) == 0 {
-			perturb = []string{"fee-equal", "fee-lower", "same-tx", "wrong-script", "value+1"}[r.Intn(5)]
+			perturb = []string{"fee-equal", "fee-lower", "same-tx", "wrong-script", "value+1", "two-extra-outputs", "change-to-foreign-key", "change-to-old-key", "swap-outputs", "fee-above-limit"}[r.Intn(10)]
 		}
 		if op := m.replaceOp(p, perturb); op != nil {
 			b.ops = append(b.ops, op)
